@@ -826,6 +826,9 @@ package server
 //@   call Add requires [cache-what-was-stored] unbox(arg1, "string") == str(cursorKey) && unbox(arg2, "int64") == offset
 //@   ensures [stored] result == nil ==> ghost.curStored[ghost.curKey] == offset
 // GetCursor answers with the stored offset - from the cache or from the log - and fills the cache consistently
+// (the cache is purged only when this server BECOMES leader of a cursors partition: it may be consulted only while
+//  the server leads that partition - a former leader's entries predate stores accepted by its successor)
+//@ ghost var leadsCursorsPartition bool
 //@ func (*cursorManager).GetCursor serves C11
 //@   returns (off, st)
 //@   assumes c != nil
@@ -835,6 +838,10 @@ package server
 //@   ghost after call Add: ghost.curCacheVal[unbox(arg1, "string")] := unbox(arg2, "int64")
 //@   call Add requires [cache-under-the-cursor-key] unbox(arg1, "string") == str(cursorKey) && unbox(arg2, "int64") == offset
 //@   call Get requires [lookup-under-the-cursor-key] unbox(arg1, "string") == str(cursorKey)
+//@   ghost at entry: ghost.leadsCursorsPartition := false
+//@   ghost after call GetLeader: ghost.leadsCursorsPartition := ret0 == c.config.Clustering.ServerID
+//@   call Get requires [cache-answers-only-on-the-cursors-partition's-leader] ghost.leadsCursorsPartition
+//@   call getLatestCursorOffset requires [log-read-only-on-the-cursors-partition's-leader] ghost.leadsCursorsPartition
 //@   call getLatestCursorOffset requires [read-under-the-cursor-key] arg2 == cursorKey
 //@   ensures [last-stored] st == nil ==> off == ghost.curStored[ghost.curKey]
 // a server that becomes leader of a cursors partition starts with an empty cache (its entries may predate stores
